@@ -250,6 +250,19 @@ Definition deliver_walks (g : graph) (r : node) : list (list node) :=
 
 Definition deliver (g : graph) (r : node) : list (node * list node) := omap observe (deliver_walks g r).
 
+(* Run-time faults.  A component in F refuses the datum: it returns an error without recording or
+   forwarding.  Every fan-out point (receiver, fan-out node, connector router) still hands the datum to
+   ALL its other consumers and reports the combined error (fanoutconsumer: multierr.Append, no early
+   return), so exactly the walks that meet no refusing component are completed, and the receiver sees
+   an error iff some walk meets one. *)
+Definition memb (F : list node) (n : node) : bool := existsb (node_eqb n) F.
+
+Definition deliver_f (g : graph) (F : list node) (r : node) : list (node * list node) :=
+  omap observe (filter (fun w => negb (existsb (memb F) w)) (deliver_walks g r)).
+
+Definition consume_error (g : graph) (F : list node) (r : node) : bool :=
+  existsb (fun w => existsb (memb F) w) (deliver_walks g r).
+
 (* connector.go build{Traces,Metrics,Logs,Profiles}: the router handed to a connector instance offers
    one consumer per pipeline id of its out-edges (all of them capabilities nodes) *)
 Definition router_pids (g : graph) (n : node) : list pid :=
